@@ -1384,17 +1384,21 @@ Require Verif.Tie.Loops.ConanRange.
 Require Verif.Tie.Loops.Cran.
 Require Verif.Tie.Loops.CranRange.
 Require Verif.Tie.Loops.Debian.
+Require Verif.Tie.Loops.DebianRange.
 Require Verif.Tie.Loops.Gem.
 Require Verif.Tie.Loops.Golang.
+Require Verif.Tie.Loops.GolangRange.
 Require Verif.Tie.Loops.Hex.
+Require Verif.Tie.Loops.HexRange.
 Require Verif.Tie.Loops.Maven.
 Require Verif.Tie.Loops.Npm.
 Require Verif.Tie.Loops.Nuget.
+Require Verif.Tie.Loops.NugetRange.
 Require Verif.Tie.Loops.Pypi.
+Require Verif.Tie.Loops.PypiRange.
 Require Verif.Tie.Loops.Rpm.
 Require Verif.Tie.Loops.RpmRange.
 Require Verif.Tie.Loops.Semver.
-Require Verif.Tie.Parse.Conan.
 Definition C20_tie_alpine_compareInt := Verif.Tie.Alpine.tie_alpine_compareInt.
 Print Assumptions C20_tie_alpine_compareInt.
 Definition C20_tie_alpine_compareLetters := Verif.Tie.Alpine.tie_alpine_compareLetters.
@@ -1679,6 +1683,10 @@ Definition C20_tie_compareDebianVersionString_total_model := Verif.Tie.Loops.Deb
 Print Assumptions C20_tie_compareDebianVersionString_total_model.
 Definition C20_tie_debian_compare_closed := Verif.Tie.Loops.Debian.tie_debian_compare_closed.
 Print Assumptions C20_tie_debian_compare_closed.
+Definition C20_tie_debian_satisfiesConstraint_closed := Verif.Tie.Loops.DebianRange.tie_debian_satisfiesConstraint_closed.
+Print Assumptions C20_tie_debian_satisfiesConstraint_closed.
+Definition C20_tie_debian_contains_closed := Verif.Tie.Loops.DebianRange.tie_debian_contains_closed.
+Print Assumptions C20_tie_debian_contains_closed.
 Definition C20_tie_loops_gem_removeTrailingZeros_exact := Verif.Tie.Loops.Gem.tie_loops_gem_removeTrailingZeros_exact.
 Print Assumptions C20_tie_loops_gem_removeTrailingZeros_exact.
 Definition C20_tie_loops_gem_removeTrailingZeros := Verif.Tie.Loops.Gem.tie_loops_gem_removeTrailingZeros.
@@ -1701,12 +1709,22 @@ Definition C20_tie_loops_golang_comparePrerelease := Verif.Tie.Loops.Golang.tie_
 Print Assumptions C20_tie_loops_golang_comparePrerelease.
 Definition C20_tie_golang_compare_closed := Verif.Tie.Loops.Golang.tie_golang_compare_closed.
 Print Assumptions C20_tie_golang_compare_closed.
+Definition C20_tie_golang_matches_closed := Verif.Tie.Loops.GolangRange.tie_golang_matches_closed.
+Print Assumptions C20_tie_golang_matches_closed.
+Definition C20_tie_golang_contains_closed := Verif.Tie.Loops.GolangRange.tie_golang_contains_closed.
+Print Assumptions C20_tie_golang_contains_closed.
 Definition C20_tie_loops_hex_comparePreRelease := Verif.Tie.Loops.Hex.tie_loops_hex_comparePreRelease.
 Print Assumptions C20_tie_loops_hex_comparePreRelease.
 Definition C20_tie_comparePreRelease_total_model := Verif.Tie.Loops.Hex.comparePreRelease_total_model.
 Print Assumptions C20_tie_comparePreRelease_total_model.
 Definition C20_tie_hex_compare_closed := Verif.Tie.Loops.Hex.tie_hex_compare_closed.
 Print Assumptions C20_tie_hex_compare_closed.
+Definition C20_tie_hex_matches_closed := Verif.Tie.Loops.HexRange.tie_hex_matches_closed.
+Print Assumptions C20_tie_hex_matches_closed.
+Definition C20_tie_hex_contains_closed := Verif.Tie.Loops.HexRange.tie_hex_contains_closed.
+Print Assumptions C20_tie_hex_contains_closed.
+Definition C20_tie_hex_contains_closed_model_ident := Verif.Tie.Loops.HexRange.tie_hex_contains_closed_model_ident.
+Print Assumptions C20_tie_hex_contains_closed_model_ident.
 Definition C20_tie_loops_maven_trimTrailingNulls_gen := Verif.Tie.Loops.Maven.tie_loops_maven_trimTrailingNulls_gen.
 Print Assumptions C20_tie_loops_maven_trimTrailingNulls_gen.
 Definition C20_tie_loops_maven_trimTrailingNulls := Verif.Tie.Loops.Maven.tie_loops_maven_trimTrailingNulls.
@@ -1721,12 +1739,22 @@ Definition C20_tie_loops_nuget_comparePrerelease := Verif.Tie.Loops.Nuget.tie_lo
 Print Assumptions C20_tie_loops_nuget_comparePrerelease.
 Definition C20_tie_nuget_compare_closed := Verif.Tie.Loops.Nuget.tie_nuget_compare_closed.
 Print Assumptions C20_tie_nuget_compare_closed.
+Definition C20_tie_nuget_matches_closed := Verif.Tie.Loops.NugetRange.tie_nuget_matches_closed.
+Print Assumptions C20_tie_nuget_matches_closed.
+Definition C20_tie_nuget_contains_closed := Verif.Tie.Loops.NugetRange.tie_nuget_contains_closed.
+Print Assumptions C20_tie_nuget_contains_closed.
+Definition C20_tie_nuget_contains_closed_model_num := Verif.Tie.Loops.NugetRange.tie_nuget_contains_closed_model_num.
+Print Assumptions C20_tie_nuget_contains_closed_model_num.
 Definition C20_tie_loops_pypi_compareReleaseVersions := Verif.Tie.Loops.Pypi.tie_loops_pypi_compareReleaseVersions.
 Print Assumptions C20_tie_loops_pypi_compareReleaseVersions.
 Definition C20_tie_compareReleaseVersions_total_model := Verif.Tie.Loops.Pypi.compareReleaseVersions_total_model.
 Print Assumptions C20_tie_compareReleaseVersions_total_model.
 Definition C20_tie_pypi_compare_closed := Verif.Tie.Loops.Pypi.tie_pypi_compare_closed.
 Print Assumptions C20_tie_pypi_compare_closed.
+Definition C20_tie_pypi_matches_closed := Verif.Tie.Loops.PypiRange.tie_pypi_matches_closed.
+Print Assumptions C20_tie_pypi_matches_closed.
+Definition C20_tie_pypi_contains_closed := Verif.Tie.Loops.PypiRange.tie_pypi_contains_closed.
+Print Assumptions C20_tie_pypi_contains_closed.
 Definition C20_tie_loops_rpm_isSeparator := Verif.Tie.Loops.Rpm.tie_loops_rpm_isSeparator.
 Print Assumptions C20_tie_loops_rpm_isSeparator.
 Definition C20_tie_loops_rpm_isSeparator_rune := Verif.Tie.Loops.Rpm.tie_loops_rpm_isSeparator_rune.
@@ -1749,8 +1777,4 @@ Definition C20_tie_loops_semver_comparePrerelease := Verif.Tie.Loops.Semver.tie_
 Print Assumptions C20_tie_loops_semver_comparePrerelease.
 Definition C20_tie_semver_compare_closed := Verif.Tie.Loops.Semver.tie_semver_compare_closed.
 Print Assumptions C20_tie_semver_compare_closed.
-Definition C20_tie_newversion_matched := Verif.Tie.Parse.Conan.newversion_matched.
-Print Assumptions C20_tie_newversion_matched.
-Definition C20_tie_newversion_unmatched := Verif.Tie.Parse.Conan.newversion_unmatched.
-Print Assumptions C20_tie_newversion_unmatched.
 (* ====== ties to the source: END ====== *)
